@@ -100,6 +100,10 @@ type c07Env struct {
 	prev    map[uint64]int // message id -> validator the message was assigned to before it was re-assigned
 	// receipt readings already reported by checkReceiptReading (one hit per shape)
 	receiptHits map[string]bool
+	// governance over the set of supported chains (c07_gov_test.go): is the second chain supported
+	// right now, and the transactions accepted so far in this env, in order of acceptance
+	otherUp    bool
+	acceptedTx []common.Hash
 }
 
 func (e *c07Env) op(line, out string) {
@@ -1065,6 +1069,9 @@ type c07Force struct {
 	// up: from / names for the handover message the accepted upload schedules
 	chFrom  string
 	chNames string
+	// governance over the set of supported chains between the first attestation and the re-submission
+	// of its transaction (c07GovModes; "" = none)
+	gov string
 }
 
 func (f *c07Force) txClass() string {
@@ -1753,6 +1760,7 @@ func (e *c07Env) attest(ctx sdk.Context, id uint64, evs []c07Ev, kind string) (c
 				e.r.Hit("tx_single_use", fmt.Sprintf("transaction already accepted for message %d", prev), e.lines)
 			}
 			e.usedTx[h] = id
+			e.acceptedTx = append(e.acceptedTx, tx.tx.Hash())
 		}
 		if e.fxSeen[id] {
 			e.r.Hit("effects_at_most_once", fmt.Sprintf("message %d produced success effects twice", id), e.lines)
@@ -2001,6 +2009,16 @@ func c07Directed(t *testing.T, r *Rec) {
 	for shape := 0; shape < c07LogShapes; shape++ {
 		run("usc", &c07Force{logShape: shape})
 	}
+	// governance over the set of supported chains between the acceptance of a transaction and its
+	// re-submission for a second message with identical content: another chain is removed, added, added
+	// and removed again - every transaction class, both kinds whose call data can be presented twice
+	k := 0
+	for _, g := range c07GovModes {
+		for _, kind := range []string{"uv", "slc"} {
+			k++
+			run(kind, &c07Force{existing: true, class: []string{"dyn", "legacy", "al", "blob"}[k%4], resubmit: true, gov: g})
+		}
+	}
 	// twin update-valsets: the transaction built for the first attests the second
 	run("uv", &c07Force{existing: true, class: "dyn", twinFirst: true})
 	// a newer compass is saved while the message is in flight: every ABI variant x the genuine
@@ -2032,7 +2050,7 @@ func c07Directed(t *testing.T, r *Rec) {
 	// outsider, nobody identifiable); naming anybody else - the transaction's own sender included - is
 	// refused whoever sent it
 	classes := []string{"dyn", "legacy", "al", "blob"}
-	k := 0
+	k = 0
 	for _, kind := range []string{"uv", "slc", "usc"} {
 		for _, from := range []string{"assignee", "validator", "outsider", "unsigned"} {
 			for _, names := range []string{"", "sender", "validator", "zero"} {
@@ -2250,6 +2268,21 @@ func (e *c07Env) driveMessage(ctx sdk.Context, id uint64, kind string, caseKey *
 		return nil
 	}
 
+	// 4c. governance over the SET of supported chains (c07_gov_test.go): another chain may be supported
+	// while the message is attested, and is added / removed between the first attestation and the
+	// re-submission of its transaction (step 6)
+	govMode := ""
+	if kind == "uv" || kind == "slc" {
+		if f != nil {
+			govMode = f.gov
+		} else if r.Rng.Intn(3) == 0 {
+			govMode = c07GovModes[r.Rng.Intn(len(c07GovModes))]
+		}
+	}
+	if err := e.govBefore(ctx, govMode); err != nil {
+		return err
+	}
+
 	// 5. evidence: every validator reports on its own; they need not agree
 	var evs []c07Ev
 	mode := ""
@@ -2392,9 +2425,13 @@ func (e *c07Env) driveMessage(ctx sdk.Context, id uint64, kind string, caseKey *
 	}
 
 	// 6. follow-ups
-	resubmit := r.Rng.Intn(2) == 0
+	resubmit := r.Rng.Intn(2) == 0 || govMode != ""
 	if f != nil {
 		resubmit = f.resubmit
+	}
+	// ... what governance does to the set of supported chains meanwhile
+	if err := e.govBetween(ctx, govMode, tx); err != nil {
+		return err
 	}
 	if txWon && resubmit && (kind == "uv" || kind == "slc") {
 		// re-submission: a second message with the same content, evidence = the SAME transaction
@@ -2421,6 +2458,9 @@ func (e *c07Env) driveMessage(ctx sdk.Context, id uint64, kind string, caseKey *
 		}
 		class2, _ := e.attest(ctx, id2, evs2, kind)
 		r.Stat("resubmit:" + kind + ":" + class2)
+		if govMode != "" {
+			r.Stat("resubmit-after-chain-governance:" + govMode + ":" + kind + ":first=" + class + ":second=" + class2)
+		}
 		if class2 == "panic" {
 			r.Hit("no_panic_on_early_evidence", "re-submission panicked the attestation", e.lines)
 		}
@@ -2453,6 +2493,9 @@ func (e *c07Env) driveMessage(ctx sdk.Context, id uint64, kind string, caseKey *
 		if !e.saveCompass(ctx, e.abiJSON, "regular") {
 			return fmt.Errorf("the keeper refused a compass with the regular ABI")
 		}
+	}
+	if err := e.govAfter(ctx); err != nil {
+		return err
 	}
 	e.cleanup(ctx, id)
 	return nil
